@@ -178,12 +178,17 @@ def run(ctx, rep):
                 isinstance(x.args[0], ast.Name) and x.args[0].id in lists
         ok = A.src(e[0]) == "(%s.__module__, %s.__name__)" % (prm[0], prm[0]) and tuple_of_list(e[1]) and \
             tuple_of_list(e[2]) and A.src(e[1]) != A.src(e[2]) and isinstance(e[3], ast.Name) and e[3].id == tbvar
-        rep.ob("R09.2", "vinegar.dump: record layout ((module, name), args, attrs, traceback text)", ok,
-               "`%s`" % A.src(r.ast.value) if ok else "the record is `%s`" % A.src(r.ast.value), ctx.loc(r))
+        if ok:
+            rep.ob("R09.2", "vinegar.dump: record layout ((module, name), args, attrs, traceback text)", ok,
+                   "`%s`" % A.src(r.ast.value), ctx.loc(r))
+        # (when the record is assembled in another shape - stage helpers, other temporaries - the layout is decided by the
+        #  record model R09.10, which evaluates dump() and compares the whole record)
     # attribute names: public, from dir(val)
     skip = [n for n in g.live if n.kind == "test" and "startswith" in A.src(n.ast) and "'_'" in A.src(n.ast)]
-    rep.ob("R09.2", "vinegar.dump: only public attributes are transmitted", bool(skip),
-           "names starting with '_' are skipped" if skip else "private attributes are transmitted", fd.loc, kind="site")
+    if skip:
+        rep.ob("R09.2", "vinegar.dump: only public attributes are transmitted", bool(skip),
+               "names starting with '_' are skipped", fd.loc, kind="site")
+    # (otherwise decided by R09.10: the model exception has private and dunder attributes that must not appear in the record)
 
     # ------------------------------------------------------------------ R09.3
     for meth, target in (("_box_exc", "vinegar.dump"), ("_unbox_exc", "vinegar.load")):
@@ -615,7 +620,7 @@ def _load_record_model(ctx, rep):
             imports = []
             derived = {}
 
-            def do_import(name, *a, modules=modules, imports=imports, import_fails=import_fails):
+            def do_import(name, *a, modules=modules, imports=imports, import_fails=import_fails, **_kw):
                 imports.append(name)
                 if import_fails:
                     raise MI.Raised("RuntimeError")
